@@ -349,6 +349,7 @@ def run(ctx):
                     fp = core.fingerprint([ver, doc["type"], kind, entry, allow])
                     deep = kind.startswith("control:") or (edit is not None and len(edit["path"]) > 1)
                     ctx.note(case, deep, ["site:" + kind.split(":")[0], "entry:" + entry, "allow_custom:%s" % allow], fp=fp)
+                    ctx.keep(case, (ver, doc["type"], kind.split(":")[0], allow), per_group=1, limit=3000)
                     ctx.handle(case, fails)
 
     ctx.collect_only = True
@@ -370,6 +371,7 @@ def run(ctx):
                 opts[shape] = True
             return ver, draw(G.valid_object(ver, type_=t, opts=opts)), draw(st.integers(0, 100))
         core.run_given(ctx, strat(), body, per_type, label="c04-%s-%s" % ver_t, rounds=3)
+    _probe(ctx)
 
 
 def check_unregistered(case):
@@ -399,6 +401,11 @@ def check_unregistered(case):
         return [("custom-admitted-strict:unregistered-type-without-new-object-extension", "%s(allow_custom=False) let an object of a never-registered type through (%s) "
                  "although its extension %r has extension_type %r" % (entry, type(res).__name__, case["ext_key"], case["ext_type"]))]
     return []
+
+
+def _probe(ctx):
+    bat = ctx.battery()
+    core.order_probe(ctx, cases=bat[::max(1, len(bat) // 240)][:240])
 
 
 def replay(case):
